@@ -63,7 +63,7 @@ def h_event(cfg):
         if second:
             # a Timeout is triggered from its creation on: it refuses any further trigger as well
             tmo = env.timeout(num('tq'), value=V)
-            b0 = (tmo._ok, tmo._value)
+            b0 = (tmo.ok, tmo.value)
             try:
                 if second == 'succeed':
                     tmo.succeed(V + 1)
@@ -72,12 +72,12 @@ def h_event(cfg):
                 fail('c02.second-trigger-raises', 'no RuntimeError for a pending Timeout')
             except RuntimeError:
                 pass
-            check('c02.second-trigger-changes-nothing', tmo._ok is b0[0] and tmo._value is b0[1], 'timeout')
+            check('c02.second-trigger-changes-nothing', tmo.ok is b0[0] and tmo.value is b0[1], 'timeout')
             if cfg.get('second_when') != 'same-step':
                 yield env.timeout(num('t2'))        # the first trigger has been processed by now
             else:
                 cover('second-trigger-before-processing')
-            before = (E._ok, E._value, env.peek())
+            before = (E.ok, E.value, env.peek())
             try:
                 if second == 'succeed':
                     E.succeed(V + 1)
@@ -86,7 +86,7 @@ def h_event(cfg):
                 fail('c02.second-trigger-raises', 'no RuntimeError')
             except RuntimeError:
                 cover('second-trigger-refused')
-            check('c02.second-trigger-changes-nothing', E._ok is before[0] and E._value is before[1])
+            check('c02.second-trigger-changes-nothing', E.ok is before[0] and E.value is before[1])
             check('c02.second-trigger-no-agenda-entry', eq(env.peek(), before[2]) if before[2] != INF else env.peek() == INF)
 
     if target.startswith('child'):
@@ -97,7 +97,7 @@ def h_event(cfg):
     E = box['E']
 
     def sentinel(ev):
-        dels.append(('s', step[0], env.now, 'ok' if ev._ok else 'exc', None, None))
+        dels.append(('s', step[0], env.now, 'ok' if ev.ok else 'exc', None, None))
     E.callbacks.append(sentinel)
     regs.append(('s', -1, 0, False))
 
@@ -120,7 +120,7 @@ def h_event(cfg):
             regs.append((i, step[0], env.now, False))
 
             def cb(ev):
-                dels.append((i, step[0], env.now, 'ok' if ev._ok else 'exc', ev._value if ev._ok else ev._value.args, None))
+                dels.append((i, step[0], env.now, 'ok' if ev.ok else 'exc', ev.value if ev.ok else ev.value.args, None))
             E.callbacks.append(cb)
 
     for i, w in enumerate(waiters):
